@@ -64,11 +64,28 @@ def run_translators():
     return translate.run_all()
 
 
+GEN_OK = {'built': False}
+
+
 def lean_build(targets):
-    """returns (ok, log).  Translators are run first, under the build lock."""
+    """returns (ok, log, translator problems).  Translators are run first, under the build lock.  The model driver `pi2drv`
+    is built FIRST and on its own: it imports only the hand-written model and the generated TABLES, so a source change
+    that breaks a translated module or its tie proof cannot take the model driver down with it (a driver that does not
+    build is an infrastructure error).  The second driver `pi2gen`, which evaluates GENERATED code, is built with the
+    property module; when that build fails the checks go on without it."""
     with BuildLock():
         tr_problems = run_translators()
+        targets = [t for t in targets if t != 'pi2drv']
+        rc0, out0 = sh(['lake', 'build', 'pi2drv'], cwd=LEAN, timeout=3600)
+        if rc0 != 0:
+            raise Infra('the model driver pi2drv does not build: ' + out0[-1500:])
         rc, out = sh(['lake', 'build'] + list(targets), cwd=LEAN, timeout=3600)
+        GEN_OK['built'] = False
+        if rc == 0:
+            rc2, out2 = sh(['lake', 'build', 'pi2gen'], cwd=LEAN, timeout=3600)
+            GEN_OK['built'] = rc2 == 0
+            if rc2 != 0:
+                rc, out = rc2, out + out2
     return rc == 0, out, tr_problems
 
 
@@ -181,6 +198,14 @@ def run_lines(cmd, lines, timeout=3600, env=None, cwd=None):
 
 def lean_drv(lines):
     return run_lines([DRV], lines)
+
+
+def lean_gen(lines):
+    """the second driver (generated code); None when it did not build in this run (the tie is then reported as broken by
+    the proof gate, and the differential tests that need it are skipped)"""
+    if not GEN_OK['built']:
+        return None
+    return run_lines([os.path.join(LEAN, '.lake', 'build', 'bin', 'pi2gen')], lines)
 
 
 def rust_h(lines):
